@@ -97,7 +97,11 @@ let o_ext (more : n list) : ext_result =
         let j = ref 5 in
         while !j < String.length rest && rest.[!j] >= '0' && rest.[!j] <= '9' do incr j done;
         if !j = 5 then Ext_einval
-        else let v = int_of_string (String.sub rest 5 (!j - 5)) in
+        else let v = (* strtoul saturates; the model only compares the value with limits that are far smaller, so cap it at OCaml's max_int *)
+               let d = String.sub rest 5 (!j - 5) in
+               let k = ref 0 in while !k < String.length d - 1 && d.[!k] = '0' do incr k done;
+               let d = String.sub d !k (String.length d - !k) in
+               if String.length d > 18 then max_int else int_of_string d in
           let ni = i + 1 + !j in
           if ni < n && s.[ni] <> ' ' then Ext_einval else go ni (0 :: seen) v (bonus + 26) dt
       end else if starts_with up "BODY=" then begin
@@ -321,6 +325,13 @@ let spec_session cfgs chunks obs =
               else emit [Note NBoundary; rep]);      (* a refused greeting still drops the transaction (freedata() comes first) *)
              go rest)
           else if starts_with u "MAIL FROM:" then begin
+            (* C15_size_parameter: an accepted MAIL FROM has no SIZE parameter above control/databytes *)
+            (if r / 100 = 2 && int_of_n o.o_databytes <> 0 then
+               match String.rindex_opt line '>' with
+               | Some i -> (match o_ext (bytes_of_str (String.sub line (i + 1) (String.length line - i - 1))) with
+                            | Ext_ok (tb, _, _) -> if int_of_n tb > int_of_n o.o_databytes then limits_bad := true
+                            | _ -> ())
+               | None -> ());
             (if r / 100 = 2 then
                (match o_addr false (bytes_of_str (String.sub line 10 (String.length line - 10))) with
                 | AP_ok (a, _, _) -> cur_from := a; stored := 0; emit [Note (NMail a); rep]
